@@ -138,9 +138,14 @@ def get_type_graph(t: type) -> graphlib.TopologicalSorter[TypeNode]:
             # We detected a cyclic type,
             #   wrap in a ForwardRef and don't add it to the stack
             #   This will terminate this edge to prevent infinite cycles.
-            if is_visited and can_be_cyclic and typing.get_args(unwrapped):
+            if (
+                is_visited
+                and can_be_cyclic
+                and (typing.get_args(unwrapped) or isinstance(unwrapped, refs.ForwardRef))
+            ):
                 # A parameterized generic can't be referenced by name without
-                #   losing its parameters: defer the type itself.
+                #   losing its parameters, and an alias given as a string already
+                #   unwraps to a reference: defer the type itself.
                 node = TypeNode(child, unwrapped, var=var, cyclic=True)
             elif is_visited and can_be_cyclic:
                 qualname = inspection.qualname(child)
